@@ -91,6 +91,8 @@ var c08Pool = func() []poolEntry {
 		"p.age + 1", "p.name.first", "p!.age", "this.a", "st.A", "n.x.y",
 		"$v = a + 1, $v * 2", "[$q = 1, $q + 1]", "f(1, 'x')", "cf(a)", "vf(1, [2,3]...)", "typeof a", "[typeof s, typeof n, typeof z]", "[1, 'a', [2]]",
 		"[1 + 2, 3 + 4, a - b, a * b]", "(a + b) * (c - x) / (y + 1)", "[a / 3, b / 3, a % 2, b % 2]", "[-a, -b, +a, ~c, ~x]", "$m = a + b, $k = a + c, [$m, $k]",
+		"((a + 1)) * 2", "max(((a)), 2) + (((b)))", "(((s)))", "c ? ((a)) : ((b))",
+		"leaked + other.path + this.b", "a + (b).c", "f(x).y + zz", "[first, (second).k, third]",
 		"foo()", "left(s,-1)", "n!.y", "regexp(s,'(')", "ef()", "x = 1", "[a].b",
 	}
 	var pool []poolEntry
@@ -118,7 +120,7 @@ var c08Pool = func() []poolEntry {
 	for _, s := range []string{"$v = 1, $v", "[$v, $q, $m, $k]", "$nv ?? 'unset'", "$v = a + 1, $v * 2", "$m = 2, $k = 3, [$m, $k]", "this", "[a, s, n]"} {
 		pool = append(pool, poolEntry{src: s, data: c08Data, noData: true})
 	}
-	for _, s := range []string{"1 +", "(a", "[1,", "'abc", "a ? b", "1 2", "#", "a..b", "f(,)", "1 +\r\n", "a\n.b", "0x1F"} {
+	for _, s := range []string{"1 +", "(a", "[1,", "'abc", "a ? b", "1 2", "#", "a..b", "f(,)", "1 +\r\n", "a\n.b", "0x1F", "'\\xzz'", "\"\\uzzzz\"", "'C:\\users\\xavier'", "(1 2", "a b", "[1, 2", "f(a,, b)", "1_", "'\\u12'"} {
 		pool = append(pool, poolEntry{src: s})
 	}
 	return pool
